@@ -230,3 +230,49 @@ func vrtRun(f func()) {
 	b, _ := json.Marshal(rep)
 	fmt.Println("VRT-REPORT " + string(b))
 }
+
+// vrtPrintable: printable ASCII plus tab / LF / CR (the alphabet of the string kernels).
+func vrtPrintable(s string) bool {
+	for i := 0; i < len(s); i++ {
+		c := s[i]
+		if !(c >= 32 && c <= 126) && c != '\t' && c != '\n' && c != '\r' {
+			return false
+		}
+	}
+	return true
+}
+
+// vrtIdent: letters, digits, '.', '_' only (may be empty).
+func vrtIdent(s string) bool {
+	for i := 0; i < len(s); i++ {
+		c := s[i]
+		if !(c >= 'a' && c <= 'z') && !(c >= 'A' && c <= 'Z') && !(c >= '0' && c <= '9') && c != '.' && c != '_' {
+			return false
+		}
+	}
+	return true
+}
+
+// vrtConfigFile natively creates the configuration file the environment holds: a missing file,
+// an unparsable one, or a YAML file listing one type (none when typ is empty).
+func vrtConfigFile(readErr, yamlErr bool, typ string) string {
+	dir, err := os.MkdirTemp("", "vrtcfg")
+	if err != nil {
+		panic(err)
+	}
+	p := dir + "/config.yaml"
+	if readErr {
+		return p
+	}
+	content := "sort: false\n"
+	if typ != "" {
+		content = "types:\n  - \"" + typ + "\"\n"
+	}
+	if yamlErr {
+		content = "types: [unterminated\n  - : :\n"
+	}
+	if err := os.WriteFile(p, []byte(content), 0644); err != nil {
+		panic(err)
+	}
+	return p
+}
